@@ -111,6 +111,20 @@ def generate(rng, tier, seed):
                     if not x.ok and x.err != "tr31":
                         c.fail(f"escaped as {x.err}")
                 yield c
+    # headers that are not padded to the cipher block size, followed by binary sections of every short length - odd numbers of hex
+    # characters included - with the length field and the block multiple made consistent
+    for ver in "ABCD":
+        bs, ksizes, ml = VERS[ver]
+        for blk in ("TT07A1B", "TT05x", "KS0Babcdefg", "", "T104", "T105y"):
+            for t in range(0, 4 * bs + 2):
+                total = 16 + len(blk) + t
+                if total % bs and rng.random() < 0.8:
+                    continue
+                tail = "".join(rng.choice("0123456789ABCDEF") for _ in range(t))
+                s_ = ver + str(total).zfill(4) + "P0TE00N" + ("01" if blk else "00") + "00" + blk + tail
+                c = Case(f"{ver}:unpadded-header-short-tail", {"block": blk, "tail": t})
+                targets(c, rng, rb(rng, ksizes[0]), s_)
+                yield c
     # random strings
     pools = [PRINTABLE, ALNUM, "0123456789ABCDEF", "".join(NASTY) + ALNUM, "ABCD0123456789"]
     for _ in range(300 * reps):
